@@ -238,8 +238,14 @@ def run(ctx):
     check_remote_unpack(ctx)
     ctx.rule('C18.2', 'unknown names raise ValueError (the failed attribute lookup is converted; C20.1) and no documented name relies on that path')
     lfi = ctx.prog.func(BASE + '.load_dataset')
-    raises, returned, _ = unknown_name_outcome(ctx.prog)
+    raises, returned, uev = unknown_name_outcome(ctx.prog)
     ok = bool(raises) and all(r == 'ValueError' for r in raises) and not returned
-    ctx.check(ok, 'C18.2', 'load_dataset: unknown name -> ValueError', f"raises {raises}; returns {returned}", lfi.loc(), lfi.qualname, 'unknown')
+    from ..datasets_model import dynamic_lookup_namespaces
+    dyn = dynamic_lookup_namespaces(ctx.prog, uev)
+    if not ok and dyn:
+        ctx.unknown('C18.2', 'load_dataset: unknown name -> ValueError',
+                    f"the namespace of {dyn} is built at import time: which names it binds is not decidable from the source text", lfi.loc(), lfi.qualname, 'unknown')
+    else:
+        ctx.check(ok, 'C18.2', 'load_dataset: unknown name -> ValueError', f"raises {raises}; returns {returned}", lfi.loc(), lfi.qualname, 'unknown')
     ctx.notes.append('NOT DECIDED: the content of remote files; what a download returns.')
     ctx.trust('Markdown tables in data_description/*.md are the documented names', 'setuptools package-data glob semantics (fnmatch on the file name)')
